@@ -2,6 +2,7 @@ import Srctools.Wire
 import Srctools.Model.C14
 import Srctools.Model.C14Kv2
 import Srctools.Model.C14Kv2Wf
+import Srctools.Model.C14Text
 import Srctools.Gen.Dmx
 import Srctools.Gen.Tok
 /-! Driver for the DMX model (C14).
@@ -13,6 +14,7 @@ requests (byte strings and texts are arrays of numbers):
   {"op":"kv2","flat":b,"cull":b,"g":G2,"fold":[[cp,[cp…]]…]} → {"text":[…],"hyp":b (hypotheses of C14_kv2),"orderOK":b,"order":[…]}
   {"op":"kv2parse","text":[cp…],"fold":[[cp,[cp…]]…]}→ {"g":G2'} | {"err":…}
   {"op":"number","g":G (any order; refs are positions),"root":n} → {"order":[loc…],"g":G indexed,"closed":b}
+  {"op":"valtext","t":"int|bool|color|binary","v":…} → {"text":[cp…]} ; {"op":"valparse","t":…,"text":[cp…],"fold":[…]} → {"v":… | null}
   {"op":"kv1","t":K,"fold":[[[cp…],[cp…]]…]}         → {"e":E,"back":K}
 G  = {"elems":[{"type":[…],"name":[…],"uuid":[16],"attrs":[{"name":[…],"t":0..13,"arr":b,"vals":[V…]}]}]}
 V  = ["n"] | ["s",[uuid text]] | ["i",idx] | ["f",[ints]] | ["t",[bytes]] | ["b",[bytes]]
@@ -217,6 +219,29 @@ def handle (j : Json) : Except String Json := do
     let root ← j.getObjValAs? Nat "root"
     pure (Json.mkObj [("order", Wire.ofNatList (number g root)), ("g", jsonOfGraph (indexed g root)),
       ("closed", Json.bool (heapClosed g))])
+  | "valtext" =>
+    -- {"t":"int","v":i} | {"t":"bool","v":0/1} | {"t":"color","v":[r,g,b,a]} | {"t":"binary","v":[bytes]}
+    let t ← j.getObjValAs? String "t"
+    let v ← j.getObjVal? "v"
+    let text ← (match t with
+      | "int" => do pure (Text.fmtInt (← v.getInt?))
+      | "bool" => do pure (Text.fmtBool ((← v.getNat?) != 0))
+      | "color" => do
+        let l ← Wire.natList v
+        pure (Text.fmtColor l[0]! l[1]! l[2]! l[3]!)
+      | "binary" => do pure (Text.fmtHex (← bytesOf v))
+      | _ => throw s!"unknown value type {t}")
+    pure (Json.mkObj [("text", Wire.codesOfStr text)])
+  | "valparse" =>
+    let t ← j.getObjValAs? String "t"
+    let text ← Wire.strOfCodes (← j.getObjVal? "text")
+    let f ← charFoldOf (← j.getObjVal? "fold")
+    match t with
+    | "int" => pure (Json.mkObj [("v", match Text.parseInt text with | some i => Json.num (JsonNumber.fromInt i) | none => Json.null)])
+    | "bool" => pure (Json.mkObj [("v", match Text.parseBool T (fun s => s.flatMap f) text with | some b => Json.num (JsonNumber.fromNat (if b then 1 else 0)) | none => Json.null)])
+    | "color" => pure (Json.mkObj [("v", match Text.parseColor text with | some (r, g, b, a) => Wire.ofNatList [r, g, b, a] | none => Json.null)])
+    | "binary" => pure (Json.mkObj [("v", match Text.parseHex text with | some bs => jsonOfBytes bs | none => Json.null)])
+    | _ => throw s!"unknown value type {t}"
   | "kv1" =>
     let t ← kvOf (← j.getObjVal? "t")
     let f ← strFoldOf (← j.getObjVal? "fold")
